@@ -233,6 +233,10 @@ class ItemList:
                 self._ids = source._vocab.ids(source._numbers.numpy())
             self._numbers = None
 
+        # ranks cached by the source only describe a list of the same length
+        if source is not None and source._ranks is not None and self._len != source._len:
+            del self._ranks
+
         if scores is False:  # check 'is False' to distinguish from None
             scores = None
         else:
